@@ -125,6 +125,43 @@ def random_forest(rng, imports=True, links=True, max_units=4):
     return Forest(units)
 
 
+def flat_import_forest(rng):
+    """compile units with trees of any shape that import, at any depth, partial units whose DIEs are all leaves
+    (variables and further imports, nested up to four deep, repeated, diamonds): every DIE that `child` hands
+    out then still carries the imports it was reached through (`child` of an imported DIE does not hand the
+    chain on to the grandchildren, so deeper partial units would blur what the routes are)"""
+    nparts = rng.randint(1, 4)
+    parts = []
+    for j in range(nparts):
+        version = rng.choice([2, 3, 4, 5])
+        root = Die("DW_TAG_partial_unit", [Attr("DW_AT_name", "DW_FORM_string", b"p%d" % j)], flag=True)
+        for k in range(rng.randint(0, 3)):
+            root.children.append(Die(rng.choice(["DW_TAG_variable", "DW_TAG_base_type", "DW_TAG_typedef"]), [Attr("DW_AT_name", "DW_FORM_string", b"p%dv%d" % (j, k))]))
+        parts.append(Unit(root, version))
+    for j, u in enumerate(parts):                           # a partial unit imports later ones only (acyclic)
+        for _ in range(rng.randint(0, 2)):
+            if j + 1 < nparts:
+                u.root.children.insert(rng.randint(0, len(u.root.children)), imp(parts[rng.randrange(j + 1, nparts)]))
+    cus = []
+    for i in range(rng.randint(1, 3)):
+        version = rng.choice([2, 3, 4, 5])
+        pool, budget = [], [rng.randint(0, 10)]
+        root = Die("DW_TAG_compile_unit", [Attr("DW_AT_name", "DW_FORM_string", b"c%d" % i)], flag=True)
+        for _ in range(rng.randint(0, 3)):
+            root.children.append(rand_tree(rng, version, rng.randint(0, 3), budget, pool))
+        hosts = [root] + [d for d in pool if d.flag or not d.children]
+        for _ in range(rng.randint(1, 4)):
+            host = rng.choice(hosts)
+            host.children.insert(rng.randint(0, len(host.children)), imp(rng.choice(parts)))
+            host.flag = True
+        cus.append(Unit(root, version))
+    units = cus + parts
+    rng.shuffle(units)
+    f = Forest(units)
+    fix_small_refs(f)
+    return f
+
+
 def fix_small_refs(forest):
     """DW_FORM_ref1 only reaches 255 bytes into the unit: fall back to ref4 where it does not fit"""
     from vlib.dwgen import layout
